@@ -68,13 +68,19 @@ def checkKrylov : Rd Verdict := do
   let report (r : Float) := r / scale
   let m := if method == 0 then cg mv resid tol lim report x0 else bicgstab mv resid norm2 tol lim x0
   let drift := 1e-6
+  -- In the last steps before finite termination (k close to n) and below about 1e-7 of the initial residual the
+  -- recurrence amplifies rounding differences between two correct evaluation orders: entries are compared down to that
+  -- floor, and an iteration count that is decided below it is not compared (the specification clauses above still
+  -- apply to the implementation's own history)
+  let floor_ := 1e-7 * (res.head?.getD 1).abs
+  if !((m.res.zip res).all fun p => close drift p.1 p.2 || (p.1 - p.2).abs ≤ floor_) then
+    return diff (base ++ "/history") s!"impl={showF res} model={showF m.res}" feats
   if m.res.length != res.length then
-    -- a different iteration count is legitimate only when a residual sits on the threshold
+    -- a different iteration count is legitimate only when a residual sits on the threshold or the threshold lies
+    -- below the comparison floor
     let nearThr := (res ++ m.res).any fun r => (r * scale - thr).abs ≤ 1e-4 * thr
-    if !nearThr then return diff (base ++ "/iterations") s!"impl {res.length - 1} model {m.res.length - 1} res={showF res} model={showF m.res}" feats
-  else
-    if !((m.res.zip res).all fun p => close drift p.1 p.2 || (p.1 - p.2).abs ≤ 1e-9 * (res.head?.getD 1).abs) then
-      return diff (base ++ "/history") s!"impl={showF res} model={showF m.res}" feats
+    let belowFloor := thr ≤ floor_ * scale
+    if !nearThr && !belowFloor then return diff (base ++ "/iterations") s!"impl {res.length - 1} model {m.res.length - 1} res={showF res} model={showF m.res}" feats
   return ok feats
 
 def checkDotNorm : Rd Verdict := do
@@ -95,10 +101,45 @@ def checkDotNorm : Rd Verdict := do
   if !close 1e-12 ip ei then return specFail (base ++ "/spec/dot_value") s!"got {ip}, assembled vectors give {ei}" feats
   return ok feats
 
+/-- preconditioned CG: reported history against the same quantity recomputed from the true residuals -/
+def checkPcg : Rd Verdict := do
+  let np ← rdNat; let solver ← rdNat; let n ← rdNat; let tolB ← rdInt; let maxit ← rdNat; let bInnerB ← rdInt
+  let full ← rdVec; let truev ← rdVec; let prefixOk ← rdVec
+  let tol := bitsToFloat tolB; let bInner := bitsToFloat bInnerB
+  let rep := full.map bitsToFloat; let tr := truev.map bitsToFloat
+  let iters := rep.length - 1
+  let base := "C17/par/pcg"
+  let feats := ["pcg", s!"np{np}", if solver == 0 then "RS" else "SA", if iters ≥ 8 then "crosses_recompute" else "short",
+                if iters < maxit then "converged" else "limit"] ++ (if n ≤ 1 then ["trivial"] else [])
+  if rep.isEmpty || tr.length != rep.length then return specFail (base ++ "/spec/history_length") s!"reported {rep.length} entries, {tr.length} iterates" feats
+  if iters > maxit then return specFail (base ++ "/spec/too_many_iterations") s!"{iters} > {maxit}" feats
+  -- a run limited to k iterations reports the first k+1 entries of the full run (the solver is a pure function)
+  if prefixOk.any (· == 0) then return specFail (base ++ "/spec/history_not_prefix") s!"prefix flags {showList prefixOk}" feats
+  let close (a b : Float) : Bool := (a - b).abs ≤ 1e-6 * (a.abs + b.abs) + 1e-13 * (tr.getD 0 0).abs / bInner.abs
+  -- entries k ≥ 1 are (r_k, M r_k)/(b, M b); the iterate returned after k iterations is the one entry k belongs to
+  for k in List.range (iters + 1) do
+    if k ≥ 1 then
+      let want := tr.getD k 0 / bInner
+      if !close (rep.getD k 0) want then
+        return specFail (base ++ "/spec/reported_vs_true") s!"iterate {k}: reported {rep.getD k 0}, (b-Ax_k, M(b-Ax_k))/(b,Mb) = {want}" feats
+  -- the first entry is reported in the scaling of the others
+  let want0 := tr.getD 0 0 / bInner
+  if !close (rep.getD 0 0) want0 then
+    return specFail (base ++ "/spec/first_entry_scaling") s!"res[0] = {rep.getD 0 0}; in the scaling of the later entries (r_0, M r_0)/(b, M b) = {want0} (sqrt(r_0, M r_0) = {(tr.getD 0 0).sqrt})" feats
+  -- stop rule as implemented: (r_k, M r_k) < tol * sqrt(b, M b); stops at the first such k or at the limit
+  let thr := tol * bInner.sqrt
+  let met (k : Nat) : Bool := rep.getD k 0 * bInner < thr
+  for k in List.range iters do
+    if k ≥ 1 && met k then return specFail (base ++ "/spec/continued_after_convergence") s!"entry {k} already met the tolerance, {iters} iterations done" feats
+  if iters < maxit && !(met iters) then
+    return specFail (base ++ "/spec/stopped_early") s!"stopped after {iters} < {maxit} iterations with (r,Mr) = {rep.getD iters 0 * bInner} ≥ {thr}" feats
+  return ok feats
+
 def run (op : String) (a : Array Int) : Verdict :=
   let r := match op with
     | "krylov" => runRd checkKrylov a
     | "dotnorm" => runRd checkDotNorm a
+    | "pcg" => runRd checkPcg a
     | _ => some (badCase s!"unknown op {op}")
   r.getD (badCase "malformed")
 
